@@ -102,7 +102,10 @@ def _def_expr(F, kind, site, du, depth, seen):
         else:
             name = a if not isinstance(a, dict) else (a.get("adt", "?").rsplit("::", 1)[-1]
                                                       + ("::" + a["variant"] if "variant" in a else ""))
-        return ("agg", name, tuple(expr(F, o, du, depth + 1, seen) for o in rv["ops"]))
+        ops = tuple(expr(F, o, du, depth + 1, seen) for o in rv["ops"])
+        if isinstance(a, dict) and a.get("is_enum"):
+            return ("agg", name, ops, a.get("discr"))
+        return ("agg", name, ops)
     return ("?",)
 
 
